@@ -6,12 +6,12 @@ export CARGO_TARGET_DIR=$W/target CARGO_NET_OFFLINE=true
 cd $W || exit 2
 git checkout -q -- . && git clean -fdq -e target
 git apply $O/${M}_demo.diff || { echo "demo apply failed"; exit 3; }
-cargo test --workspace --no-fail-fast --offline -j 6 > $O/$M.confirm.clean.log 2>&1
+cargo test --workspace --no-fail-fast --offline -j 6 $DEMO_ARGS > $O/$M.confirm.clean.log 2>&1
 A_FAILED=$(grep -E "^test .* FAILED$" $O/$M.confirm.clean.log | wc -l)
 A_PASSED=$(grep -E "^test .* ok$" $O/$M.confirm.clean.log | wc -l)
 git apply $O/$M.diff || { echo "mutation apply failed"; exit 3; }
 cargo build --workspace --offline -j 6 > $O/$M.confirm.build.log 2>&1; BUILD=$?
-cargo test --workspace --no-fail-fast --offline -j 6 > $O/$M.confirm.mut.log 2>&1
+cargo test --workspace --no-fail-fast --offline -j 6 $DEMO_ARGS > $O/$M.confirm.mut.log 2>&1
 B_FAILED_NAMES=$(grep -E "^test .* FAILED$" $O/$M.confirm.mut.log | sed 's/^test //; s/ \.\.\. FAILED//' | tr '\n' ' ')
 B_FAILED=$(grep -E "^test .* FAILED$" $O/$M.confirm.mut.log | wc -l)
 B_PASSED=$(grep -E "^test .* ok$" $O/$M.confirm.mut.log | wc -l)
